@@ -182,7 +182,18 @@ impl Reasoner {
                 }
             }
         }
-        repairs
+        // A consistent subset found before one of its consistent supersets is not a repair:
+        // keep only the subset-maximal ones, whatever order the search visited them in.
+        let maximal: Vec<HashSet<Triple>> = repairs
+            .iter()
+            .filter(|candidate| {
+                !repairs
+                    .iter()
+                    .any(|other| other.len() > candidate.len() && other.is_superset(candidate))
+            })
+            .cloned()
+            .collect();
+        maximal
     }
 }
 
